@@ -168,7 +168,8 @@ def execute(case) -> Outcome:
             if w is UNSPEC:
                 continue
             if not bool(np.all(close(np.asarray(result[idx]), np.asarray(w, dtype=float) if not isinstance(w, (np.ndarray,)) else w, rtol, atol))):
-                out.add(("value", wk, f"axis={axstyle}"), f"[{where}] func={func} axis={ax} (array {arr.shape}, labels {by.shape}): result{list(idx)} = "
+                tag = "int-nanfirst/nanlast" if func in ("nanfirst", "nanlast") and arr.dtype.kind in "iub" else "-"
+                out.add(("value", wk, f"axis={axstyle}", tag), f"[{where}] func={func} axis={ax} (array {arr.shape}, labels {by.shape}): result{list(idx)} = "
                         f"{result[idx]!r}, slice-wise reference {w!r}")  # fmt: skip
                 return None
         return result
